@@ -549,9 +549,64 @@ def _dynamic(case, v, log, stats):
       v('C06.fixpoint', ['dynamic'], 'second serialisation differs\n%s' % S)
   except Exception as e:  # pylint: disable=broad-except
     v('C06.fixpoint', ['dynamic', type(e).__name__], repr(e))
+  # ---- order independence when the imports are generated by gin itself: ----
+  # configurables registered by decorator (no import of any file names them),
+  # living in modules with one leaf name, bound through the Python API
+  leafs = rng.sample(['vpa.util', 'vpb.util', 'vpc.util', 'vpa.other'],
+                     rng.randint(2, 3))
+  orders = [list(range(len(leafs))), list(reversed(range(len(leafs))))]
+  texts = []
+  for order in orders:
+    world.reset()
+    names = []
+    for li, modname in enumerate(leafs):
+      g2 = {'__name__': modname}
+      exec('def sf%d(x=0, y=0):\n  return x\n' % li, g2)  # pylint: disable=exec-used
+      probes.plant_module(modname, {'sf%d' % li: g2['sf%d' % li]})
+      gin.configurable(g2['sf%d' % li])
+      names.append('%s.sf%d' % (modname, li))
+    try:
+      gin.parse_config('from __gin__ import dynamic_registration\n')
+      for i in order:
+        gin.bind_parameter(names[i] + '.x', i)
+      texts.append(gin.config_str(max_line_length=case['width'],
+                                  continuation_indent=case['indent']))
+    except Exception as e:  # pylint: disable=broad-except
+      v('C06.dynamic_config_str', ['generated-imports', type(e).__name__],
+        'config_str() for decorator-registered %r bound by bind_parameter '
+        'under dynamic registration raised %s: %s' %
+        (names, type(e).__name__, probes.scrub(str(e))[:300]))
+      texts = []
+      break
+  if len(texts) == 2:
+    log.add('dyn_generated_imports', texts[0])
+    if texts[0] != texts[1]:
+      v('C06.order_independent', ['dynamic', 'generated-imports'],
+        'the same bindings made in two orders serialise differently under '
+        'dynamic registration:\n%s\n--- other order\n%s' % (texts[0], texts[1]))
+    else:
+      world.reset()
+      for li, modname in enumerate(leafs):
+        g2 = {'__name__': modname}
+        exec('def sf%d(x=0, y=0):\n  return x\n' % li, g2)  # pylint: disable=exec-used
+        probes.plant_module(modname, {'sf%d' % li: g2['sf%d' % li]})
+        gin.configurable(g2['sf%d' % li])
+      try:
+        gin.parse_config(texts[0])
+        for li, modname in enumerate(leafs):
+          got = gin.query_parameter('%s.sf%d.x' % (modname, li))
+          if got != li:
+            v('C06.round_trip', ['dynamic', 'generated-imports'],
+              'after re-parsing, %s.sf%d.x is %r\n%s' %
+              (modname, li, got, texts[0]))
+      except Exception as e:  # pylint: disable=broad-except
+        v('C06.always_parses', ['dynamic', 'generated-imports',
+                                type(e).__name__],
+          'the text does not parse / resolve in a reset world: %s: %s\n%s' %
+          (type(e).__name__, probes.scrub(str(e))[:300], texts[0]))
   import sys
   for name in list(sys.modules):
-    if name.split('.')[0] in ('vq0', 'vq1', 'vr'):
+    if name.split('.')[0] in ('vq0', 'vq1', 'vr', 'Vq2', 'vpa', 'vpb', 'vpc'):
       del sys.modules[name]
 
 
